@@ -44,4 +44,14 @@ META = {
         "design_ref": "DESIGN.md section 6 C08",
         "note": "Trusted: reference decoder in the harness, engine + z3; native replay uses real loop-back sockets. Bound: one or two requests per run, 9 request shapes, 1 (quick) / 3 (thorough) start instants.",
     },
+    "C06": {
+        "text": "Bounded model checking of the real event loop (PfcpServer.main and receiver executed as coroutines): two request templates with symbolic 24-bit sequence numbers and sources (equal or not - the solver splits), copies of them and retention-timer expiries fed in every order; after each event the loop runs to quiescence and a ghost of the retention table (Appendix F.5) decides whether the copy had to be executed, re-answered byte-identically, or ignored, and that expiry releases the bookkeeping; on Stop all timers in the tables are stopped and both goroutines end.",
+        "design_ref": "DESIGN.md section 6 C06, Appendix F.5",
+        "note": "Trusted: cooperative coroutine model (one event processed at a time is what the loop's select does), engine + z3; native replay drives the real goroutines over loop-back sockets. Bound: 3 (quick) / 4 (thorough) events, 2 keys, 5 request kinds.",
+    },
+    "C09": {
+        "text": "Bounded model checking of the TX transaction path through the real event loop: the 32-bit transmit counter is symbolic over the whole 24-bit range (the second request crosses the 2^24 boundary), retry limit 0..3, 1..2 Session Report Requests, then retransmission-timer expiries and Session Report Responses (either peer, symbolic sequence) in every order; a ghost of the outstanding-request table keyed by the wire sequence octets decides retransmission (byte-identical, at most MaxRetrans times), matching, abandonment and that unmatched responses have no effect.",
+        "design_ref": "DESIGN.md section 6 C09, Appendix F.5",
+        "note": "Trusted: as C06. Bound: <= 2 outstanding requests, 3 (quick) / 4 (thorough) events.",
+    },
 }
